@@ -63,7 +63,7 @@ MISSING_SEG = "zz_missing"
 
 def plan(tier, seed):
     n = 16 if tier == "quick" else 64
-    per = 300 if tier == "quick" else 2500
+    per = 300 if tier == "quick" else 2000
     return [{"seed": seed * 1000 + i, "n": per} for i in range(n)]
 
 
